@@ -144,7 +144,7 @@ def pick_sample(cases, n, rng, prefer=()):
 
 
 def main():
-    ck = Check('C09')
+    ck = Check('C09', level='exploration')   # proof covers the front-end model only (see level_claimed in MANIFEST.json)
     P = THOROUGH if ck.thorough() else QUICK
     ck.cov['trusted_base'] = ['Coq 8.16.1 kernel + VM', 'XFront.v: hand model of xcmp.hpp Lexer/Parser, tied by correspondence (tree with locations, diagnostics)',
                               'glibc ctype semantics for bytes >= 0x80 as modelled (C locale: not space/alpha/digit); isalpha on a negative char is UB in ISO C',
